@@ -5,6 +5,7 @@ schedulers is C20 (`respects_windows_rr`, `pieces_concatenate`, `conservation_rr
 ledger of the server is validated against these definitions by the server-level stream.
 -/
 import FpVerif.Model.Flow
+import FpVerif.Spec.H2STx
 import FpVerif.Model.H2Tx
 import FpVerif.Model.H2Rx
 import FpVerif.Lemmas.H2Rx
@@ -1083,5 +1084,37 @@ open H2Rx in
 theorem rx_init : RxInv ({} : RConn) ∧ HasBodies ({} : RConn) := by
   refine ⟨⟨⟨by decide, by decide, by decide, by decide⟩, by unfold BUniq; simp, by decide⟩, ?_⟩
   intro sid h; simp [present, findS] at h
+
+/-! ### the server's sending side as the peer sees it (specification `Fp.Spec.H2STx`, compared with the real server by the
+`h2stx` oracle stream) -/
+
+/-- SAFETY: at every flush the server-side specification sends on a stream no more than that stream's window, no more
+than the connection window and no more than is queued — for every window value, including negative ones after a
+SETTINGS_INITIAL_WINDOW_SIZE decrease -/
+theorem server_tx_within_windows (cwin : Int) (st : Spec.H2STx.Str) :
+    (Spec.H2STx.quota cwin st : Int) ≤ max 0 st.win ∧ (Spec.H2STx.quota cwin st : Int) ≤ max 0 cwin ∧
+    Spec.H2STx.quota cwin st ≤ st.remaining := Spec.H2STx.quota_le_windows cwin st
+
+/-- DELIVERY: after every event nothing sendable is left behind: a stream still holds data only if its own window or
+the connection window is exhausted -/
+theorem server_tx_delivers (s : Spec.H2STx.S) (e : Spec.H2STx.Ev) :
+    ∀ st ∈ (Spec.H2STx.step s e).strs, st.remaining = 0 ∨ st.win ≤ 0 ∨ (Spec.H2STx.step s e).cwin ≤ 0 := by
+  intro st h
+  unfold Spec.H2STx.step at h ⊢
+  exact Spec.H2STx.flush_leaves_nothing_sendable _ _ st h
+
+/-- a SETTINGS_INITIAL_WINDOW_SIZE change moves the window of EVERY stream by the difference (RFC 7540 §6.9.2) -/
+theorem settings_change_moves_every_stream (s : Spec.H2STx.S) (v : Nat) :
+    (Spec.H2STx.apply s (.setInitial v)).strs = s.strs.map (fun st => { st with win := st.win + ((v : Int) - s.iw) }) := rfl
+
+/-- non-vacuity: lowering the setting 10 → 4 after ten bytes were sent leaves the window at -6; a WINDOW_UPDATE of 10 then
+releases exactly four more bytes -/
+example :
+    let s0 : Spec.H2STx.S := {}
+    let s1 := Spec.H2STx.step s0 (.setInitial 10)
+    let s2 := Spec.H2STx.step s1 (.request 1 50)
+    let s3 := Spec.H2STx.step s2 (.setInitial 4)
+    let s4 := Spec.H2STx.step s3 (.windowUpdate 1 10)
+    (s2.strs.map (·.sent), s3.strs.map (·.win), s4.strs.map (·.sent)) = ([10], [-6], [14]) := by decide
 
 end Fp.C12
